@@ -125,6 +125,24 @@ def _fields(reading):
     return {"": reading}
 
 
+@st.composite
+def chain_cases(draw):
+    """an indicator whose input is another indicator's output (which has a warm-up of its own and may legitimately
+    read 0.0), both in one Hexital, source registered first: calculation must be total there too"""
+    from hxv.props.c01 import chain_cases as base
+
+    case = draw(base(max_n=60))
+    if case["chain"][1].get("cls") == "ROC":
+        # a rate of change relative to a value that may be exactly zero has no value: the statement's inputs are
+        # positive prices, and a dependant ROC of a zero-valued series is not generated (DESIGN section 4 C09)
+        case["chain"][1] = {"cls": "EMA", "kw": {"period": 3, "input_value": "UP", "fullname_override": "DOWN"}}
+    case.pop("lifespan", None)
+    case.pop("interlude", None)
+    case["cfg"] = case["chain"][1]
+    case["mode"] = "append"
+    return case
+
+
 def run_case(case) -> Result:
     cfg, rows = case["cfg"], case["stream"]
     subject = gc.subject_of(cfg)
@@ -164,7 +182,19 @@ def run_case(case) -> Result:
     nontrivial = bool(labels)
 
     try:
-        if case.get("mode") == "batch":
+        if "chain" in case:
+            from hexital import Hexital
+
+            labels.append("chained_input")
+            pre = min(case.get("preload", 0), len(rows))
+            hx = Hexital("c09", mk_candles(rows[:pre], case.get("tzoff")), [build_indicator(c) for c in case["chain"]], **mgr_kwargs(case))
+            hx.calculate()
+            rest = rows[pre:]
+            for a, b in split_chunks(len(rest), case.get("chunks", [])):
+                hx.append(mk_candles(rest[a:b], case.get("tzoff")))
+            ind = hx.indicator("DOWN")
+            nontrivial = len(rows) >= 6
+        elif case.get("mode") == "batch":
             ind = build_indicator(cfg, candles=mk_candles(rows, case.get("tzoff")), **mgr_kwargs(case))
             ind.calculate()
         else:
@@ -214,4 +244,5 @@ def shards(tier):
         out.append(Shard(s, (lambda s=s: cases(s)), n if not s.startswith("fn:") else n // 2, subject=s, cost=cost))
     for s in ("MACD", "HMA", "KC", "TSI", "RSI", "STOCH", "BBANDS", "EMA", "SMA", "RMA", "WMA", "StandardDeviation", "StandardDeviationThreshold"):
         out.append(Shard("voltail:" + s, (lambda s=s: volume_tail_cases(s)), n // 3, subject=s, cost=2))
+    out += [Shard(f"chain-{i}", lambda: chain_cases(), n, subject="chain", cost=2) for i in range(3)]
     return out
